@@ -285,80 +285,118 @@ Next == /\ \/ flav' \in Flavours /\ UNCHANGED <<fx, dims, rp, rv, sc, rot, frame
 Spec == Init /\ [][Next]_vars
 
 \* ================================================================================================ theorems
-Hd == Headers(Cur)
-Pr == Process(Cur)
-Computable == ~HeadersRaise(Cur)
-Ok == Computable /\ Pr.out = "ok"
+\* Every theorem is an operator over (case, its headers, its process result) so that TLC computes the headers and the result once per
+\* state (Judged); the names without arguments are the sentences about the current state, for INVARIANT lines.
+NoHeaders == [crval |-> <<>>, crpix |-> <<>>, cd |-> <<>>]
+Comp(cs) == ~HeadersRaise(cs)
+OkP(cs, pr) == Comp(cs) /\ pr.out = "ok"
 
-UnitRotation == Add(Sq(Cos(Cur)), Sq(Sin(Cur))) = I(1)                     \* the case set is what it claims to be
+T_UnitRotation(cs, hd, pr) == Add(Sq(Cos(cs)), Sq(Sin(cs))) = I(1)              \* the case set is what it claims to be
 \* ---- the headers (toasty's own part)
 \* (1) the reference value sits at the reference pixel, wherever that is and whatever the rescaling
-RefPixelAtRefValue == Computable => LET d == RefDisplay(Cur)
-                                    IN /\ HeaderSky(Hd, d[1], d[2]) = <<Zero, Zero>>
-                                       /\ AvmSky(Cur, d[1], d[2]) = <<Zero, Zero>>
-                                       /\ Hd.crval = <<I(rv[1]), I(rv[2])>>
+T_RefPixelAtRefValue(cs, hd, pr) == Comp(cs) => LET d == RefDisplay(cs)
+                                                IN /\ HeaderSky(hd, d[1], d[2]) = <<Zero, Zero>>
+                                                   /\ AvmSky(cs, d[1], d[2]) = <<Zero, Zero>>
+                                                   /\ hd.crval = <<I(cs.rv[1]), I(cs.rv[2])>>
 \* (2) one pixel step of the fetched image is the stated scale and rotation, in the stated handedness - unless RescaleSkewed
-StepsAsStated == (Computable /\ ~RescaleSkewed(Cur)) => Hd.cd = IdealTopDownCD(Cur)
+T_StepsAsStated(cs, hd, pr) == (Comp(cs) /\ ~RescaleSkewed(cs)) => hd.cd = IdealTopDownCD(cs)
 \* ... and then every corner (and the middle) of the fetched image lies where the metadata put the corner of the reference image
-CornersPreserved == (Computable /\ ~RescaleSkewed(Cur)) =>
-                        \A p \in Corners(Cur) : HeaderSky(Hd, p[1], p[2]) = AvmSky(Cur, p[1], p[2])
+T_CornersPreserved(cs, hd, pr) == (Comp(cs) /\ ~RescaleSkewed(cs)) =>
+                                      \A p \in Corners(cs) : HeaderSky(hd, p[1], p[2]) = AvmSky(cs, p[1], p[2])
 \* (2') what holds as built in every case: the two diagonal entries are right, the off-diagonal ones carry the other axis's factor
-StepsAsBuilt == Computable => LET id == IdealTopDownCD(Cur)
-                              IN /\ Hd.cd[1] = id[1] /\ Hd.cd[4] = id[4]
-                                 /\ Mul(Hd.cd[2], F0(Cur)) = Mul(id[2], F1(Cur))
-                                 /\ Mul(Hd.cd[3], F1(Cur)) = Mul(id[3], F0(Cur))
+T_StepsAsBuilt(cs, hd, pr) == Comp(cs) => LET id == IdealTopDownCD(cs)
+                                          IN /\ hd.cd[1] = id[1] /\ hd.cd[4] = id[4]
+                                             /\ Mul(hd.cd[2], F0(cs)) = Mul(id[2], F1(cs))
+                                             /\ Mul(hd.cd[3], F1(cs)) = Mul(id[3], F0(cs))
 \* (3) the flip to top-down reverses the handedness of the matrix and nothing else: det(top-down) = - det(AVM) / (f0 f1)
-HandednessFlipped == Computable => Det(Hd.cd) = Neg(Div(Det(AvmCD(Cur)), Mul(F0(Cur), F1(Cur))))
+T_HandednessFlipped(cs, hd, pr) == Comp(cs) => Det(hd.cd) = Neg(Div(Det(AvmCD(cs)), Mul(F0(cs), F1(cs))))
 \* (4) the rescaling alone: headers for the fetched size describe the same plane as headers for the reference size
-RescalingPreservesCorners ==
-    (Computable /\ ~RescaleSkewed(Cur)) =>
-        LET ref == Headers(Case(flav, fx, <<dims[1], dims[2], dims[1], dims[2]>>, rp, rv, sc, rot, frame))
+T_RescalingPreservesCorners(cs, hd, pr) ==
+    (Comp(cs) /\ ~RescaleSkewed(cs)) =>
+        LET ref == Headers([cs EXCEPT !.dims = <<RW(cs), RH(cs), RW(cs), RH(cs)>>])
         IN \A k \in {<<0, 0>>, <<1, 0>>, <<0, 1>>, <<1, 1>>} :
-              HeaderSky(Hd, I(k[1] * W(Cur)), I(k[2] * H(Cur))) = HeaderSky(ref, I(k[1] * RW(Cur)), I(k[2] * RH(Cur)))
+              HeaderSky(hd, I(k[1] * W(cs)), I(k[2] * H(cs))) = HeaderSky(ref, I(k[1] * RW(cs)), I(k[2] * RH(cs)))
 \* ---- the ImageSet
 \* (5) what is accepted: an exact similarity (non-degenerate; unmirrored when tiled) always is; whatever is accepted has pixels
 \*     square within 5 %
-SimilarityAccepted == (Computable /\ ExactSimilarity(Hd) /\ Det(Hd.cd) # Zero /\ ~MirroredTiledRaises(Cur) /\ Pr.out # "irrational") => Ok
-AcceptedNearSquare == Ok => ~Lt(Mul(Tol, Add(Pr.sx, Pr.sy)), AbsQ(Sub(Pr.sx, Pr.sy)))
-MirrorRule == Computable => (Pr.out = "raises" /\ Pr.why = "parity" <=> MirroredTiledRaises(Cur))
+T_SimilarityAccepted(cs, hd, pr) == (Comp(cs) /\ ExactSimilarity(hd) /\ Det(hd.cd) # Zero /\ ~MirroredTiledRaises(cs) /\ pr.out # "irrational") => OkP(cs, pr)
+T_AcceptedNearSquare(cs, hd, pr) == OkP(cs, pr) => ~Lt(Mul(Tol, Add(pr.sx, pr.sy)), AbsQ(Sub(pr.sx, pr.sy)))
+T_MirrorRule(cs, hd, pr) == Comp(cs) => (pr.out = "raises" /\ pr.why = "parity" <=> MirroredTiledRaises(cs))
 \* (6) tiled = more than one tile; a tiled ImageSet is never bottoms-up; an untiled one is bottoms-up exactly when mirrored
-TiledIffLarge == Ok => /\ (Pr.proj = "Tan" <=> (W(Cur) > 256 \/ H(Cur) > 256))
-                       /\ Pr.lev = Levels(Cur)
-                       /\ (Pr.proj = "Tan" => ~Pr.bu)
-                       /\ (Pr.proj = "SkyImage" => (Pr.bu <=> Mirrored(Cur)))
+T_TiledIffLarge(cs, hd, pr) == OkP(cs, pr) => /\ (pr.proj = "Tan" <=> (W(cs) > 256 \/ H(cs) > 256))
+                                              /\ pr.lev = Levels(cs)
+                                              /\ (pr.proj = "Tan" => ~pr.bu)
+                                              /\ (pr.proj = "SkyImage" => (pr.bu <=> Mirrored(cs)))
 \* (7) the client puts (CenterX, CenterY) on the reference pixel: exactly when the pixels are square, for every image size
 \*     parity and padding (this is where wwt_data_formats' (w + 1) // 2 has to agree with StudyTiling's (p2 - w) // 2)
-ClientRefAtRefPixel == (Ok /\ Pr.sx = Pr.sy) => ClientRef(Pr, Cur) = RefDisplay(Cur)
+T_ClientRefAtRefPixel(cs, hd, pr) == (OkP(cs, pr) /\ pr.sx = pr.sy) => ClientRef(pr, cs) = RefDisplay(cs)
 \* (8) ... and reads back the matrix of the headers when that is an exact similarity: with (7), every corner where the headers put it
-ClientReadsHeaders == (Ok /\ ExactSimilarity(Hd) /\ HasUnit(Pr)) =>
-                          /\ ClientCD(Pr) = Hd.cd
-                          /\ \A p \in Corners(Cur) : ClientSky(Pr, Cur, p[1], p[2]) = HeaderSky(Hd, p[1], p[2])
+T_ClientReadsHeaders(cs, hd, pr) == (OkP(cs, pr) /\ ExactSimilarity(hd) /\ HasUnit(pr)) =>
+                                        /\ ClientCD(pr) = hd.cd
+                                        /\ \A p \in Corners(cs) : ClientSky(pr, cs, p[1], p[2]) = HeaderSky(hd, p[1], p[2])
 \* (9) end to end, for undistorted metadata and a uniform rescaling: the client shows every corner where the AVM metadata say
-EndToEnd == (Ok /\ ExactSimilarity(Hd) /\ HasUnit(Pr) /\ ~RescaleSkewed(Cur)) =>
-                \A p \in Corners(Cur) : ClientSky(Pr, Cur, p[1], p[2]) = AvmSky(Cur, p[1], p[2])
+T_EndToEnd(cs, hd, pr) == (OkP(cs, pr) /\ ExactSimilarity(hd) /\ HasUnit(pr) /\ ~RescaleSkewed(cs)) =>
+                              \A p \in Corners(cs) : ClientSky(pr, cs, p[1], p[2]) = AvmSky(cs, p[1], p[2])
 \* (10) the rotation written is minus the AVM rotation for an ordinary (unmirrored, square-pixel, uniformly rescaled) image
-RotationIsMinusAvm == (Ok /\ ~Mirrored(Cur) /\ S0(Cur)[1] < 0 /\ AbsQ(S0(Cur)) = AbsQ(S1(Cur)) /\ UniformRescale(Cur)) =>
-                          /\ HasUnit(Pr) /\ UnitDir(Pr) = <<Cos(Cur), Neg(Sin(Cur))>>
-                          /\ ClientScale(Pr) = Div(S1(Cur), F1(Cur))
+T_RotationIsMinusAvm(cs, hd, pr) == (OkP(cs, pr) /\ ~Mirrored(cs) /\ S0(cs)[1] < 0 /\ AbsQ(S0(cs)) = AbsQ(S1(cs)) /\ UniformRescale(cs)) =>
+                                        /\ HasUnit(pr) /\ UnitDir(pr) = <<Cos(cs), Neg(Sin(cs))>>
+                                        /\ ClientScale(pr) = Div(S1(cs), F1(cs))
 \* (11) nothing but the documented inputs matters: the frame and the fetch variant do not move the image
-FrameAndFetchIrrelevant == Computable =>
-    Process(Cur) = Process(Case(flav, DefaultCase.fx, dims, rp, rv, sc, rot, DefaultCase.frame))
+T_FrameAndFetchIrrelevant(cs, hd, pr) == Comp(cs) => pr = Process([cs EXCEPT !.fx = DefaultCase.fx, !.frame = DefaultCase.frame])
 \* (12) both sources compute the same headers from the same numbers
-FlavoursAgree == (sc[2] # Null) => Headers(Case("astropix", fx, dims, rp, rv, sc, rot, frame)) = Headers(Case("djangoplicity", fx, dims, rp, rv, sc, rot, frame))
+T_FlavoursAgree(cs, hd, pr) == (cs.sc[2] # Null) => Headers([cs EXCEPT !.flav = "astropix"]) = Headers([cs EXCEPT !.flav = "djangoplicity"])
 \* fetch
-FetchRule == LET f == Fetch(Cur)
-             IN /\ (f.out = "cached" <=> (flav = "astropix" \/ (fx.orig /\ fx.spatial = "TAN")))
-                /\ (f.out = "cached" => <<"image", CacheExt(Cur)>> \in f.files)
-                /\ (f.out # "cached" => f.files = {})
+T_FetchRule(cs, hd, pr) == LET f == Fetch(cs)
+                           IN /\ (f.out = "cached" <=> (cs.flav = "astropix" \/ (cs.fx.orig /\ cs.fx.spatial = "TAN")))
+                              /\ (f.out = "cached" => <<"image", CacheExt(cs)>> \in f.files)
+                              /\ (f.out # "cached" => f.files = {})
 
 \* ---- ideal statements the code does not keep (negative controls; TLC refutes each)
-CornersAlwaysPreserved == Computable => \A p \in Corners(Cur) : HeaderSky(Hd, p[1], p[2]) = AvmSky(Cur, p[1], p[2])
-FrameRespected == (Computable /\ FrameIgnored(Cur)) => Pr.out = "raises"
-AcceptedAtFetchIsProcessable == (Fetch(Cur).out = "cached") => (Computable /\ Pr.out # "raises")
-ProcessedIsExact == Ok => ExactSimilarity(Hd)
-ServedFileIsWhatOffsetsDescribe == Ok => ~SmallImagePadded(Cur)
-ClientRefAlwaysAtRefPixel == Ok => ClientRef(Pr, Cur) = RefDisplay(Cur)
-Ideals == [CornersAlwaysPreserved |-> CornersAlwaysPreserved, FrameRespected |-> FrameRespected,
-           AcceptedAtFetchIsProcessable |-> AcceptedAtFetchIsProcessable, ProcessedIsExact |-> ProcessedIsExact,
-           ServedFileIsWhatOffsetsDescribe |-> ServedFileIsWhatOffsetsDescribe, ClientRefAlwaysAtRefPixel |-> ClientRefAlwaysAtRefPixel]
+I_CornersAlwaysPreserved(cs, hd, pr) == Comp(cs) => \A p \in Corners(cs) : HeaderSky(hd, p[1], p[2]) = AvmSky(cs, p[1], p[2])
+I_FrameRespected(cs, hd, pr) == (Comp(cs) /\ FrameIgnored(cs)) => pr.out = "raises"
+I_AcceptedAtFetchIsProcessable(cs, hd, pr) == (Fetch(cs).out = "cached") => (Comp(cs) /\ pr.out # "raises")
+I_ProcessedIsExact(cs, hd, pr) == OkP(cs, pr) => ExactSimilarity(hd)
+I_ServedFileIsWhatOffsetsDescribe(cs, hd, pr) == OkP(cs, pr) => ~SmallImagePadded(cs)
+I_ClientRefAlwaysAtRefPixel(cs, hd, pr) == OkP(cs, pr) => ClientRef(pr, cs) = RefDisplay(cs)
+
+Verdicts(cs, hd, pr) ==
+    [UnitRotation |-> T_UnitRotation(cs, hd, pr), RefPixelAtRefValue |-> T_RefPixelAtRefValue(cs, hd, pr), StepsAsStated |-> T_StepsAsStated(cs, hd, pr),
+     CornersPreserved |-> T_CornersPreserved(cs, hd, pr), StepsAsBuilt |-> T_StepsAsBuilt(cs, hd, pr), HandednessFlipped |-> T_HandednessFlipped(cs, hd, pr),
+     RescalingPreservesCorners |-> T_RescalingPreservesCorners(cs, hd, pr), SimilarityAccepted |-> T_SimilarityAccepted(cs, hd, pr),
+     AcceptedNearSquare |-> T_AcceptedNearSquare(cs, hd, pr), MirrorRule |-> T_MirrorRule(cs, hd, pr), TiledIffLarge |-> T_TiledIffLarge(cs, hd, pr),
+     ClientRefAtRefPixel |-> T_ClientRefAtRefPixel(cs, hd, pr), ClientReadsHeaders |-> T_ClientReadsHeaders(cs, hd, pr), EndToEnd |-> T_EndToEnd(cs, hd, pr),
+     RotationIsMinusAvm |-> T_RotationIsMinusAvm(cs, hd, pr), FrameAndFetchIrrelevant |-> T_FrameAndFetchIrrelevant(cs, hd, pr),
+     FlavoursAgree |-> T_FlavoursAgree(cs, hd, pr), FetchRule |-> T_FetchRule(cs, hd, pr)]
+IdealVerdicts(cs, hd, pr) ==
+    [CornersAlwaysPreserved |-> I_CornersAlwaysPreserved(cs, hd, pr), FrameRespected |-> I_FrameRespected(cs, hd, pr),
+     AcceptedAtFetchIsProcessable |-> I_AcceptedAtFetchIsProcessable(cs, hd, pr), ProcessedIsExact |-> I_ProcessedIsExact(cs, hd, pr),
+     ServedFileIsWhatOffsetsDescribe |-> I_ServedFileIsWhatOffsetsDescribe(cs, hd, pr), ClientRefAlwaysAtRefPixel |-> I_ClientRefAlwaysAtRefPixel(cs, hd, pr)]
+\* the current state: headers and result computed once
+Judged == LET cs == Cur
+              hd == IF Comp(cs) THEN Headers(cs) ELSE NoHeaders
+              pr == Process(cs)
+          IN [cs |-> cs, hd |-> hd, pr |-> pr, th |-> Verdicts(cs, hd, pr), ideal |-> IdealVerdicts(cs, hd, pr)]
+\* INVARIANT: every theorem holds in the current state
+Theorems == LET j == Judged IN \A k \in DOMAIN j.th : j.th[k]
+\* ... and one by one (the same sentences; used when a diagnosis is wanted)
+Hd == IF Comp(Cur) THEN Headers(Cur) ELSE NoHeaders
+Pr == Process(Cur)
+UnitRotation == T_UnitRotation(Cur, Hd, Pr)
+RefPixelAtRefValue == T_RefPixelAtRefValue(Cur, Hd, Pr)
+StepsAsStated == T_StepsAsStated(Cur, Hd, Pr)
+CornersPreserved == T_CornersPreserved(Cur, Hd, Pr)
+StepsAsBuilt == T_StepsAsBuilt(Cur, Hd, Pr)
+HandednessFlipped == T_HandednessFlipped(Cur, Hd, Pr)
+RescalingPreservesCorners == T_RescalingPreservesCorners(Cur, Hd, Pr)
+SimilarityAccepted == T_SimilarityAccepted(Cur, Hd, Pr)
+AcceptedNearSquare == T_AcceptedNearSquare(Cur, Hd, Pr)
+MirrorRule == T_MirrorRule(Cur, Hd, Pr)
+TiledIffLarge == T_TiledIffLarge(Cur, Hd, Pr)
+ClientRefAtRefPixel == T_ClientRefAtRefPixel(Cur, Hd, Pr)
+ClientReadsHeaders == T_ClientReadsHeaders(Cur, Hd, Pr)
+EndToEnd == T_EndToEnd(Cur, Hd, Pr)
+RotationIsMinusAvm == T_RotationIsMinusAvm(Cur, Hd, Pr)
+FrameAndFetchIrrelevant == T_FrameAndFetchIrrelevant(Cur, Hd, Pr)
+FlavoursAgree == T_FlavoursAgree(Cur, Hd, Pr)
+FetchRule == T_FetchRule(Cur, Hd, Pr)
 =============================================================================
